@@ -202,6 +202,17 @@ func ruleIdx(c *Ctx) {
 			c.R.Hold("R-IDX", p.Pos(ix), f.Name, construct, "unreachable", false)
 			return true
 		}
+		// tightness: the first read of an optional field k (and of the last
+		// mandatory one) must be possible on lines that have exactly k+1 fields;
+		// a stricter guard silently ignores a field the plugin did send
+		if worst > k && k >= 3 && ord[k] == 1 {
+			if worst == k+1 {
+				c.R.Hold("R-IDX/tight", p.Pos(ix), f.Name, construct, fmt.Sprintf("read whenever the line has at least %d fields", k+1), true)
+			} else {
+				c.R.Violate("R-IDX/tight", p.Pos(ix), f.Name, construct,
+					fmt.Sprintf("field %d of the handshake line is only read when the line has at least %d fields: on a line with exactly %d fields it is ignored although it is present (the reported protocol / certificate / multiplexing flag is then not what the line says)", k, worst, k+1), nil)
+			}
+		}
 		if worst > k {
 			c.R.Hold("R-IDX", p.Pos(ix), f.Name, construct, fmt.Sprintf("len(%s) >= %d on every path reaching the index", parts.Name(), worst), true)
 		} else {
